@@ -203,4 +203,28 @@ PROPS = {
                      "the 10 s schedule ticker is replaced by explicit tick events (a case lasts milliseconds)"],
         "assumptions": [],
     },
+    "C09": {
+        "required_theorems": ["c09_gate_iff", "c09_gate_rejects", "c09_gate_needs_bearer", "c09_token_is_a_field", "c09_gate_accepts", "c09_login_iff",
+                              "c09_no_login_without_live_path", "c09_listing_only_subtrees", "c09_listing_edges_are_live", "gen_auth_pinned"],
+        "n": {"quick": 600, "thorough": 12000},
+        "thorough_seeds": 3,
+        "rule": "one in-process instance with auth token (embedded NATS, store, HTTP API; restarted every 150 cases). gate cases: an HTTP request (5 methods x 6 node routes incl. create, points, "
+                "parents, notification) whose Authorization header is built from a template: absent, the auth token plain / padded / prefixed / truncated / extended, a JWT without scheme, "
+                "scheme words (Bearer, bearer, BEARER, Basic, Bearer:, Token, the token itself) x separators (spaces, tabs, none) x 17 JWT kinds minted at run time with the instance key read "
+                "from its database (valid, expired, other key, empty key, HS384, HS512, alg none, no jti, numeric jti, not-yet-valid, payload swapped, header rewritten to none, signature removed, "
+                "two parts, garbage), trailing words, a bad token followed by a valid one, wrong order; observation = 401 + number of bus messages the request caused (subjects carrying the "
+                "request's unique id, after flushing the API connection) or served. login cases: groups in chains/mirrors/detached, a user in 1-3 places, a second user, deletions and "
+                "undeletions of placements and of groups above, moves, then POST /v1/auth with right / wrong / padded credentials; observation = denied or token + the (id,parent) listing of "
+                "GET /v1/nodes with the issued token. bus cases: nats.Connect with right / wrong / truncated / padded / no token. Oracle = exact token or first two words Bearer + valid JWT; "
+                "login iff a matching user reaches root through non-deleted edges (fixpoint closure); every listed node at or below a live place of the user; distinct = distinct case line",
+        "trusted": ["github.com/golang-jwt/jwt v4: HS256 signature and exp/nbf validation (parameter tokenOK of the theorems; exercised with 17 token kinds per run)",
+                    "net/http + net/textproto header transport (trimming of optional white space is reproduced in the driver)", "nats-server token authorization",
+                    "modernc SQLite as in C05"],
+        "modelled": ["api/nodes.go gate, api/key.go Key.Valid (strings.Fields restricted to ASCII white space: headers with U+0085/U+00A0/... are outside the model and the generator), "
+                     "store/sqlite.go userCheck + checkUserPathRoot, client/node.go GetNodesForUser modelled by hand (Siot/Model/Auth.lean on the store model); shape re-extracted every run (gen_auth_pinned)",
+                     "the tombstone test of an edge is a parameter isDel of the theorems: the Go code uses three tests (value != 0 in userCheck, == 1 in getNodes, odd in up) that agree on the values 0/1 every writer uses; the generator writes 0/1",
+                     "routes behind the gate are not modelled: a request that passes is only observed as 'served' (any status but 401)",
+                     "the statement 'causes no read or write' is decided by the extracted fact gateBeforeBus (the 401 return precedes every use of the bus connection) and observed as zero bus messages"],
+        "assumptions": [],
+    },
 }
